@@ -72,6 +72,9 @@ def gen_schema(r, size=1.0):
             if f["kind"] not in ("scalar", "enum", "struct") and r.random() < 0.1 and f["kind"] not in ("union", "vec_union"):
                 f["required"] = True
             if r.random() < 0.08 and not f.get("required"): f["deprecated"] = True
+            # flatcc accepts several key fields per table; the one with the lowest id is the default (primary) key
+            if f["kind"] in ("scalar", "string", "enum") and not f.get("deprecated") and f.get("type") not in ("bool", "float", "double") and r.random() < 0.15:
+                f["key"] = True
             t["fields"].append(f)
     S["root"] = S["tables"][0]["name"]
     return S
@@ -101,7 +104,7 @@ def render(S):
             ty = {"scalar": f.get("type"), "string": "string", "enum": f.get("type"), "struct": f.get("type"), "table": f.get("type"),
                   "vec_scalar": "[%s]" % f.get("type"), "vec_string": "[string]", "vec_struct": "[%s]" % f.get("type"),
                   "vec_table": "[%s]" % f.get("type"), "union": f.get("type"), "vec_union": "[%s]" % f.get("type")}[k]
-            attrs = [a for a in ("required", "deprecated") if f.get(a)]
+            attrs = [a for a in ("required", "deprecated", "key") if f.get(a)]
             d = " = %s" % f["default"] if "default" in f else ""
             fs.append("%s:%s%s%s;" % (f["name"], ty, d, " (%s)" % ", ".join(attrs) if attrs else ""))
         out.append("table %s { %s }" % (t["name"], " ".join(fs)))
